@@ -439,6 +439,8 @@ def match_known(known, violation, stratum):
             return f
         if 'signature_suffix' in f and sig.endswith(f['signature_suffix']):
             return f
+        if 'signature_contains' in f and f['signature_contains'] in sig:
+            return f
     return None
 
 
@@ -528,9 +530,16 @@ def run_check(spec, tier, base_seed, *, out=print):
             groups.setdefault((vkey(v), stratum in spec.known_extended_strata and stratum or ''), []).append((i, seed, stratum, used, v))
         reports = []
         jobs = []
+        known_counts = collections.Counter()     # listed finding id -> runs that hit it (all signature classes)
         for key, items in groups.items():
             i, seed, stratum, used, v = items[0]
             kf = match_known(known, v, stratum)
+            if kf is not None:
+                # a listed finding shows under many signature classes (one per oracle it trips):
+                # one minimised replay per listed finding is enough, the rest is only counted
+                known_counts[kf['id']] += total['viol_counts'][vkey(v)]
+                if known_counts[kf['id']] != total['viol_counts'][vkey(v)]:
+                    continue
             jobs.append((key, items[0], kf))
         attempts = 250 if tier == 'quick' else 600
         futs = {ex.submit(_minimise_job, (it[3], it[2], it[4], 0 if it[4].get('no_shrink') else attempts)): (key, it, kf)
@@ -558,7 +567,7 @@ def run_check(spec, tier, base_seed, *, out=print):
                 harness_msgs.append(f'violation {key} did not reproduce in a fresh interpreter: {fr}')
                 continue
             if kf is not None:
-                known_hit[kf['id']] = (kf, path, total['viol_counts'][vkey(v)])
+                known_hit[kf['id']] = (kf, path, known_counts[kf['id']])
             else:
                 new_violation_keys.append((key, path, v2, stratum, total['viol_counts'][vkey(v)]))
 
